@@ -421,6 +421,39 @@ func embedRun(args []string) int {
 		}()
 		w.emit(ev.fill())
 	}
+	// ---- no embedding files anywhere: asking for them changes nothing, whatever kind of database it is asked of
+	for i, q := range []string{"frobnicate widget", "delete item", "find item question", "widget number"} {
+		for _, nlpOn := range []bool{false, true} {
+			mk := func() (*database.Database, *corpusT) {
+				db := &database.Database{Commands: mixCommands()}
+				if i%2 == 1 { // ... or one that came from the loader
+					if l, err := database.LoadDatabase(getCorpus("mix").file); err == nil {
+						db = l
+					}
+				}
+				return db, wrapCorpus("mix", db, nil, "")
+			}
+			o := database.SearchOptions{Limit: 20, UseNLP: nlpOn, AllPlatforms: true}
+			tr++
+			ev := &embedEv{Op: "sem", Tr: tr}
+			func() {
+				defer func() {
+					if rec := recover(); rec != nil {
+						ev.Panic, ev.Note = true, fmt.Sprint(rec)
+					}
+				}()
+				db0, c0 := mk()
+				without := db0.SearchUniversal(q, o)
+				db1, c1 := mk()
+				db1.LoadEmbeddings() // finds no files here
+				with := db1.SearchUniversal(q, o)
+				ev.WithoutAns, ev.WithAns = in2.answerID(c0, toHits(without)), in2.answerID(c1, toHits(with))
+				ev.With, ev.Without = docsOf(c1, with), docsOf(c0, without)
+				ev.Order = cmpSeq(toHits(with))
+			}()
+			w.emit(ev.fill())
+		}
+	}
 	// ---- cosine similarity
 	for i := 0; i < *ncos; i++ {
 		tr++
